@@ -8,6 +8,7 @@ PID = "C18"
 LEVEL = "other"
 CRATES = ["rlib_f80"]
 RELEASE = True
+NUMERIC_EQ = ["f80"]   # == is the numeric comparison (X3), not the comparison of the bytes
 ARMED = True
 ENGINES = ["E8", "E3", "E10"]
 TECHNIQUE = "abstract interpretation of the Intel-syntax templates of every asm! block on a symbolic x87 stack (balanced stack, stored expression equals the operator's specification with operands in order, memory widths match the Rust types, flag conditions false on unordered), resolved-callee rules for the comparison/assign families, who-implements rules for PartialEq/Eq, decoding of the constant byte patterns"
